@@ -1,4 +1,6 @@
 import Afkak.Monitor.C14
+import Afkak.Monitor.C13Live
+import Afkak.Monitor.C13Commit
 /-! # C13 — full-strength statements that are NOT (yet) proved, or that the code violates. -/
 namespace Afkak.Props.Open.C13
 open Afkak.Consumer Afkak.Monitor
@@ -10,37 +12,64 @@ def EnvOk (cfg0 : Option (ErrKind × Nat)) (evs : List Ev) : Prop :=
     | .env rq _ => ∀ k t, rq = some (k, t) → k ≠ .outOfRange
     | _ => True
 
+/-! `cfg.depth` is how deep the MODEL follows re-entrant calls (the code has no such bound); re-entrant calls never
+nest deeper than 2 in the model (processor → `shutdown()` → `stop()`), the harness runs depth 4.  The statements are
+about every depth at which the model follows all of them: `2 ≤ cfg.depth`.  (Below that the model itself reports
+`crash "re-entrancy depth"`: see the examples at the foot of `AfkakProps/C13.lean`.) -/
+
 /-- The start Deferred fires exactly once per run: with the last processed offset on stop/shutdown,
-    with a failure that really occurred otherwise; `stop()` returns the same offset.
-    As stated (every `cfg`, so also `cfg.depth < 2` where the model does not follow the re-entrant `stop()` of a
-    graceful shutdown) it is FALSE of the model: `C13_start_fires_once_counterexample`.  Open for `2 ≤ cfg.depth`. -/
+    with a failure that really occurred otherwise; `stop()` returns the same offset. -/
 def C13_start_fires_once : Prop :=
-  ∀ (cfg : Cfg) (script : List PEntry) (evs : List Ev), EnvOk none evs →
+  ∀ (cfg : Cfg) (script : List PEntry) (evs : List Ev), 2 ≤ cfg.depth → EnvOk none evs →
     C13.startOnceOk (trace cfg script evs) = true
 
 /-- After `stop()` returns: no timer, no uncancelled request, no pending processor result; and no
-    fetch / commit / processor / timer activity until the next `start()`.
-    As stated (every `cfg`, so also `cfg.depth < 2`) FALSE of the model: `C13_quiescent_after_stop_counterexample`.
-    Proved for `2 ≤ cfg.depth` without a consumer group: `C13_quiescent_after_stop_partial`; open for `2 ≤ cfg.depth`
-    with a consumer group (commit requests, commit retry timer, auto-commit looper, commit waiters). -/
+    fetch / commit / processor / timer activity until the next `start()`.  PROVED: `AfkakProps/C13.lean`. -/
 def C13_quiescent_after_stop : Prop :=
-  ∀ (cfg : Cfg) (script : List PEntry) (evs : List Ev), C13.quiescentOk (trace cfg script evs) = true
+  ∀ (cfg : Cfg) (script : List PEntry) (evs : List Ev), 2 ≤ cfg.depth → C13.quiescentOk (trace cfg script evs) = true
 
 /-- Graceful shutdown waits for the processor, commits when a group is configured, then stops; on
     success the last committed offset is the last processed one. -/
 def C13_shutdown_sequence : Prop :=
-  ∀ (cfg : Cfg) (script : List PEntry) (evs : List Ev), C13.shutdownOk cfg.group (trace cfg script evs) = true
+  ∀ (cfg : Cfg) (script : List PEntry) (evs : List Ev), 2 ≤ cfg.depth → C13.shutdownOk cfg.group (trace cfg script evs) = true
 
 /-- … including a `shutdown()` called from inside the processor.  VIOLATED by the code (finding F26,
     pinned by `test_consumer_shutdown_processor_immediate_shutdown`): see `C13_shutdown_waits_counterexample`. -/
 def C13_shutdown_waits_inproc : Prop :=
   ∀ (cfg : Cfg) (script : List PEntry) (evs : List Ev), C13.shutdownInprocOk cfg.group (trace cfg script evs) = true
 
-/-- No API call ends in an exception the API does not document.
-    As stated (every `cfg`, so also `cfg.depth = 0`) FALSE of the model: `C13_no_crash_counterexample` (the "crash" is
-    the model's own `re-entrancy depth` marker).  Open for `1 ≤ cfg.depth`. -/
+/-- No API call ends in an exception the API does not document - whatever the processor does (re-entrant `stop()`,
+    `commit()`, `shutdown()` included), at every depth at which the model follows those calls. -/
 def C13_no_crash : Prop :=
-  ∀ (cfg : Cfg) (script : List PEntry) (evs : List Ev),
-    (∀ e ∈ script, e.acts = []) → C13.noCrashOk (trace cfg script evs) = true
+  ∀ (cfg : Cfg) (script : List PEntry) (evs : List Ev), 2 ≤ cfg.depth → C13.noCrashOk (trace cfg script evs) = true
+
+/-- A graceful shutdown is never held up by a commit that keeps failing: the retries of a commit are bounded by the
+    attempt limit, and - with no limit - by the shutdown's own limit once a shutdown has been asked for. -/
+def C13_commit_bounded : Prop :=
+  ∀ (cfg : Cfg) (script : List PEntry) (evs : List Ev), 2 ≤ cfg.depth →
+    C13.commitBoundedOk cfg.maxAttempts (trace cfg script evs) = true
+
+/-- `shutdown()`'s Deferred fires for every commit outcome, part 2: a pending graceful shutdown is never stuck - after
+    every event it waits for something the environment still owes an answer for: the processor's result, a commit
+    request, or the commit retry timer.  (With `C13_commit_bounded`: every accepted `shutdown()` is followed by
+    `shutdownFired` once those answers arrive.) -/
+def C13_shutdown_never_stuck : Prop :=
+  ∀ (cfg : Cfg) (script : List PEntry) (evs : List Ev), 2 ≤ cfg.depth →
+    (run cfg script evs).shutdownD = true →
+      (run cfg script evs).crashed = true ∨ (run cfg script evs).proc.isSome = true ∨
+        (run cfg script evs).commitReq.isSome = true ∨ (∃ d dl a, (run cfg script evs).commitCall = .pending d dl a)
+
+/-- "A stopped consumer can be started again": a run that has not ended (start Deferred not fired, no graceful
+    shutdown asked) is never idle at the end of an event - a fetch / offset request is outstanding, or the refetch
+    timer is armed, or a processor result is pending; in a first run as in any later one.  Not proved yet (it holds
+    on every model trace the harness has generated; the monitor runs on the implementation's traces). -/
+def C13_restart_alive : Prop :=
+  ∀ (cfg : Cfg) (script : List PEntry) (evs : List Ev), 2 ≤ cfg.depth → C13.aliveOk (trace cfg script evs) = true
+
+/-- A graceful shutdown that fails, fails with the cancellation `stop()` causes or with the failure of a commit
+    request that completed after the shutdown was asked for - never with one remembered from before (then it would
+    have given up without committing what was processed).  Not proved yet. -/
+def C13_shutdown_failure_own : Prop :=
+  ∀ (cfg : Cfg) (script : List PEntry) (evs : List Ev), 2 ≤ cfg.depth → C13.shutdownFailOk (trace cfg script evs) = true
 
 end Afkak.Props.Open.C13
